@@ -176,7 +176,8 @@ def build(t, cache):
 
 INTS = {2: (-2**63, 2**63 - 1), 3: (0, 2**64 - 1), 4: (-2**31, 2**31 - 1), 5: (0, 2**32 - 1),
         6: (-2**15, 2**15 - 1), 7: (0, 2**16 - 1), 8: (-128, 127), 9: (0, 255)}
-STRINGS = ["", "a", "hé", "abcdefg", "abcdefgh", "x" * 17, "日本", "abcdefghijklmno", "q" * 33]
+STRINGS = ["", "a", "hé", "abcdefg", "abcdefgh", "x" * 17, "日本", "abcdefghijklmno", "q" * 33,
+           "é" * 4, "€€€", "é" * 7, "é" * 12, "日本語のテキスト"]
 
 
 def val(t, r, dynmax=3):
